@@ -93,22 +93,8 @@ def run_check(engine, prop, tier, master_seed, tasks, workers, level="exploratio
     viol = [r for r in oks if r["violations"]]
 
     # ---- known findings: a listed finding must not mask another violation of the same run ----------
-    known = load_known_findings(prop)
+    known_entry, reorder = known_matcher(engine, prop)
     needs_min = getattr(engine, "KEY_NEEDS_MINIMISATION", True)
-    stable = set(getattr(engine, "STABLE_KEY_FIELDS", ()))
-
-    def known_entry(scn, res, v, minimised):
-        key = engine.finding_key(scn, res, v)
-        for e in known:
-            if (minimised or not needs_min or set(e.get("key", {})) <= stable) and match_known(e, key):
-                return e
-        return None
-
-    def reorder(scn, res, minimised=False):
-        vs = res["violations"]
-        unknown_first = [v for v in vs if known_entry(scn, res, v, minimised) is None]
-        res["violations"] = unknown_first + [v for v in vs if v not in unknown_first]
-        return not unknown_first     # True: every violation of this run is a listed finding
 
     # ---- minimise (distinct preliminary keys first) ---------------------------------------------
     reports = []
@@ -211,6 +197,27 @@ def run_check(engine, prop, tier, master_seed, tasks, workers, level="exploratio
     return EXIT_OK
 
 
+def known_matcher(engine, prop):
+    known = load_known_findings(prop)
+    needs_min = getattr(engine, "KEY_NEEDS_MINIMISATION", True)
+    stable = set(getattr(engine, "STABLE_KEY_FIELDS", ()))
+
+    def known_entry(scn, res, v, minimised):
+        key = engine.finding_key(scn, res, v)
+        for e in known:
+            if (minimised or not needs_min or set(e.get("key", {})) <= stable) and match_known(e, key):
+                return e
+        return None
+
+    def reorder(scn, res, minimised=False):
+        vs = res["violations"]
+        unknown_first = [v for v in vs if known_entry(scn, res, v, minimised) is None]
+        res["violations"] = unknown_first + [v for v in vs if v not in unknown_first]
+        return not unknown_first     # True: every violation of this run is a listed finding
+
+    return known_entry, reorder
+
+
 def replay_file(engine, path):
     """Feed the recorded scenario and trace to the same engine; it must reproduce the same
     violation class, in a fresh process, or the harness reports itself broken (exit 2)."""
@@ -218,8 +225,14 @@ def replay_file(engine, path):
     zyg = Zygote(engine, 150.0, 90.0)
     res = zyg.execute(rep["scenario"])
     want = rep["violation"]["class"]
-    got = engine.violation_class(res)
     prop = rep["property"]
+    known_entry, reorder = known_matcher(engine, prop)
+    if res["violations"] and reorder(rep["scenario"], res, rep.get("minimised", False)):
+        e = known_entry(rep["scenario"], res, res["violations"][0], rep.get("minimised", False))
+        print(f"replayed {path}: only a listed finding is left")
+        print(f"KNOWN-FINDING: property={prop} {e['what']}")
+        return EXIT_OK
+    got = engine.violation_class(res)
     if got == want:
         print(f"replayed {path}: reproduced violation class {got!r}")
         v = res["violations"][0]
